@@ -793,13 +793,10 @@ pub(crate) fn find_text_regex_select_expressions<'a, 'b>(
         let foundexpressions: Vec<_> = if let Some(regexset) = precompiledset {
             regexset.matches(text).into_iter().collect()
         } else {
-            RegexSet::new(expressions.iter().map(|x| x.as_str()))
-                .map_err(|e| {
-                    StamError::RegexError(e, "Parsing regular expressions in search_text()")
-                })?
-                .matches(text)
-                .into_iter()
-                .collect()
+            //(a set compiled here from the texts of the expressions would not have the options
+            // they were built with (RegexBuilder: case-insensitive, multi-line, ..) and so rule out
+            // expressions that do match: without a set from the caller all expressions are run)
+            (0..expressions.len()).collect()
         };
         foundexpressions
     } else {
